@@ -109,6 +109,21 @@ def judge(rec, opts):
         if text != wanto:
             out.append((f"translated-output:{shape(rec)}", {"src": src, "n": n, "want": wanto, "got": text}))
             break
+    # a catalog asked for by the names the template uses (Babel's `keywords` maps source names): never fails, and holds the
+    # messages of the `t` filters and translate tags that the full extraction found
+    if not out:
+        from liquid2.messages import extract_from_templates
+        try:
+            cat2 = extract_from_templates(t, keywords={"t": None, "translate": None})
+            ids = {m.id if isinstance(m.id, str) else m.id[0] for m in cat2 if m.id}
+        except Exception as e:  # noqa: BLE001
+            out.append((f"catalog-by-source-names-raised-{type(e).__name__}:{shape(rec)}", {"src": src, "error": repr(e)[:200]}))
+            ids = None
+        if ids is not None:
+            # every message such a catalog holds is one the full extraction reported
+            extra = sorted(ids - {e["msg"]["id"] for e in got})
+            if extra:
+                out.append((f"catalog-by-source-names-invents:{shape(rec)}", {"src": src, "ids": extra}))
     # whatever the count turns out to be - nil, missing, text, a fraction, a negative number, an array, a boolean -
     # a lookup the render makes is one the extraction reported: same family, context, message id and plural form
     literal_only = all(it.get("ctx") != "var" and it.get("plural") != "var" and not (it["k"] == "filter" and it.get("left") == "var")
